@@ -36,6 +36,7 @@ const (
 	oXportErr  = "xport-late-error" // the device ends in ERROR, then the reply is lost (UNAVAILABLE)
 	oBogusEvt  = "bogus-event"      // conformance: device untouched, reply claims success but carries another event
 	oBogusTrig = "bogus-trigger"    // conformance: device untouched, reply claims success but trigger != EXECUTOR
+	oBogusOk   = "bogus-ok"         // conformance: device untouched and reported truthfully, but the reply says ok / EXECUTOR
 	oRejected  = "rejected"         // not scriptable: srcState mismatch -> INVALID_ARGUMENT (device's own behaviour)
 )
 
@@ -126,7 +127,7 @@ func (m *devModel) available(st, evt string) []string {
 	if row {
 		out = append(out, oXportLate)
 	}
-	return append(out, oXportErr, oBogusEvt, oBogusTrig)
+	return append(out, oXportErr, oBogusEvt, oBogusTrig, oBogusOk)
 }
 
 // stepRec is one Transition request as the device saw it.
@@ -229,6 +230,8 @@ func (d *fakeDevice) Transition(_ context.Context, req *pb.TransitionRequest) (*
 		reply = &pb.TransitionReply{Ok: true, State: fin, TransitionEvent: other, Trigger: pb.StateChangeTrigger_EXECUTOR}
 	case oBogusTrig:
 		reply = &pb.TransitionReply{Ok: true, State: fin, TransitionEvent: evt, Trigger: pb.StateChangeTrigger_DEVICE_INTENTIONAL}
+	case oBogusOk:
+		reply = &pb.TransitionReply{Ok: true, State: cur, TransitionEvent: evt, Trigger: pb.StateChangeTrigger_EXECUTOR}
 	default:
 		err = status.Error(codes.Internal, "harness: unknown outcome "+o)
 	}
